@@ -48,6 +48,7 @@ FUNCS = {
     'neg': lambda x: -x,
     'half': lambda x: x / 2,
     'tofloat': lambda x: float(x),
+    'tenth': lambda x: x / 10 + 0.1,          # floats that single precision cannot hold
     'dup': lambda x: [x, x],
     'dup0': lambda x: [x] * (x % 3),          # 0, 1 or 2 copies
     'pairup': lambda x: (x, x + 1),
@@ -290,6 +291,14 @@ def _k_mixed(x):
         return float(1)                  # == 1 == True: same group as class 3
     if c == 5:
         return None
+    if c == 6:
+        return -1                        # hash(-1) == hash(-2): distinct keys, same hash
+    if c == 7:
+        return -2
+    if c == 8:
+        return 5
+    if c == 9:
+        return 5 + (2 ** 61 - 1)         # == 5 modulo the hash modulus
     return c
 
 
@@ -311,6 +320,7 @@ FUNCS.update({
     'p_str': lambda x: ''.join(['p', str(x % 10)]),
     'mod10': lambda x: x % 10,
     'ts_div10': lambda x: x // 10,
+    'mod100': lambda x: x % 100,
     'closing_mod10': lambda x: x % 10 == 1,
     'ts_100': lambda x: (x % 100) // 10 if False else (x // 10) % 100,
 })
